@@ -132,6 +132,28 @@ CLAIMS = {
             "per-curve partitions are disjoint filters mapped back by their own index.",
             "Not decided: permutation-equivariance of LLL-based guesses (the set -> list order of signatures feeds the lattice) - a runtime property.",
             "DESIGN.md section 3 C17"),
+    "C05": ("other", "constant folding and symbolic comparison of enumerations, cut-offs and denominator formulas (necessary conditions only)",
+            "Decides that the enumerations and cut-offs the detection region depends on are at least what the property states: default pattern sizes, cut-off bit_length // K with K <= 16 "
+            "(oversize sizes skipped with continue, never break), permuted-pattern word/pattern ranges and cut-off K' <= 10, the denominator formulas 2^w - 1 and "
+            "(2^p - 1)(2^(pw) + 1)/(2^w + 1) as symbolic identities, Pollard defaults (2^20-smooth, 2^64-powersmooth for 150 primes), gate and both-smooth verdict, "
+            "Hamming-weight thresholds and defaults. Premature exits of the candidate loops are under C04's R-C04-EXHAUST.",
+            "NOT decided: that the lattice reduction / best-first search then finds the factorisation inside the stated region (runtime behaviour of LLL and heuristics).",
+            "DESIGN.md section 3 C05"),
+    "C07": ("other", "one-sided threshold comparison (constant folding + dominance of the guarding comparison) and a frozen certificate/threshold classification of all registered checks",
+            "The false-positive rate itself is a statement about a distribution and is not decidable statically. Decided: every default the 2^-37 design value rests on is at least as "
+            "strict as documented (continued-fraction bound >= 2^48 and actually used, GCDN1 bound >= 2^128, Pollard gate >= 2^60 dominating every positive return, Hamming-weight "
+            "threshold <= bitlen - 12 compared with <=, >= 48 / >= 39 ROCA primes with ROCA hits excluded from the variant); and each of the 29 registered checks is either "
+            "certificate-backed (every positive path records a verified factor / key: cannot accuse a healthy artifact, by C01/C02) or one of 12 frozen threshold-backed checks.",
+            "Neighbour-independence is C17. Sizes/Exponents cannot fire under the property's own hypothesis (>= 2048 bits, e = 65537).",
+            "DESIGN.md section 3 C07"),
+    "C08": ("other", "structural necessary conditions by symbolic path walk and constant folding (grouping, aligned windows, table/consumer agreement, strategy decision table)",
+            "Lattice success is NOT decided. Decided: signatures are partitioned per curve and per issuer and the per-issuer (r, s, z) set is built from that issuer's indices with the "
+            "partition's curve; window sizes include 24/48/120, a and b are sliced identically with stride = size, guesses are accumulated, the early break only fires when one window "
+            "holds everything; every signature index of a verified issuer is assigned; each of the 18 LCG model entries has 1 <= min_signatures <= sliding_window_size <= sample_size, "
+            "enough constants for the largest prefix the subset generator can request, w a power of two and a supported curve; DEFAULT = SINGLE|SLIDING|INCLUDE_KEY and the three regimes "
+            "yield a problem whenever len(a) >= min_signatures - 1; U2F basis, gate and sliding pair + single window.",
+            "Some regime checks of _HiddenNumberProblemSubsets compare normalised statements (refactoring-sensitive).",
+            "DESIGN.md section 3 C08"),
     "C16": ("other", "typestate / who-may-write analysis over the AST + symbolic path walk of all 24 Check bodies",
             "Decides, for every path of every Check body in the package, that each loop iteration records exactly one "
             "result entry on that iteration's artifact with an entry created in the same iteration, that the positive flag, "
